@@ -65,7 +65,7 @@ Definition pack (t : dtype) (v : dval) : option (list N) :=
   | DTIPv4, DRaw b => if Nat.eqb (length b) 4 && bytesb b then Some b else None
   | DTIPv6, DRaw b => if Nat.eqb (length b) 16 && bytesb b then Some b else None
   | DTString, DRaw b => if bytesb b then Some (b ++ [0]) else None
-  | DTBit, DBool b => Some [if b then 1 else 0]   (* UnsignedChar(self._value): not bit-positioned; unused on the wire *)
+  | DTBit, DInt z => if (0 <=? z)%Z && (z <? 256)%Z then Some [Z.to_N z] else None   (* UnsignedChar(self._value): the byte of eight flags *)
   | _, _ => None
   end.
 
